@@ -149,6 +149,11 @@ fn json_elems(s: &str) -> Vec<String> {
 // ---------------------------------------------------------------------------------------------
 
 fn gen(rng: &mut Rng, i: usize) -> Case {
+    if i % 40 == 0 {
+        // one stalled-consumer run at the head of every run (longer stalls further on)
+        let ms = if i == 0 { 1500 } else { *rng.pick(&[1200u64, 2500, 4500]) };
+        return gen_stall(rng, i, ms);
+    }
     let hosts = if i % 3 == 2 { 2 } else { 1 };
     let cores = rng.range(1, 3);
     let (mode, n) = match rng.below(4) {
@@ -173,11 +178,40 @@ fn gen(rng: &mut Rng, i: usize) -> Case {
     c
 }
 
+/// A consumer replica that stops draining its input for a while (a slow user function) while far
+/// more than CHANNEL_CAPACITY batches are outstanding for it on a TCP link: back-pressure must
+/// block the producers, never drop or reorder anything. `stall` = how long the first consumer
+/// replica of the last host sleeps on its first item (ms).
+fn gen_stall(rng: &mut Rng, i: usize, stall_ms: u64) -> Case {
+    let (mode, n) = if rng.chance(1, 2) { ("S", 1) } else { ("F", rng.range(1, 4)) };
+    let kind = if rng.chance(1, 2) { "shuffle" } else { "group" };
+    let mut c = Case::new(&["links", "2", &rng.range(1, 2).to_string(), mode, &n.to_string(), kind, "0"]);
+    c.ops(vec!["stall".into(), stall_ms.to_string()]);
+    let count = rng.range(250, 400) * n;
+    for k in 0..count {
+        c.ops(vec!["i".into(), "0".into(), (i as i64 * 1000 + k).to_string()]);
+    }
+    c
+}
+
 struct Cfg {
     mode: BatchMode,
     group: bool,
     ts: bool,
     items: Arc<Vec<(u64, i64)>>,
+    /// (host of the stalling consumer, ms)
+    stall: Option<(u64, u64)>,
+}
+
+static STALLED: std::sync::atomic::AtomicBool = std::sync::atomic::AtomicBool::new(false);
+
+fn maybe_stall(stall: Option<(u64, u64)>) {
+    if let Some((host, ms)) = stall {
+        let me = replica_coord().expect("probe outside a worker");
+        if me.host_id == host && me.replica_id == 0 && !STALLED.swap(true, Ordering::SeqCst) {
+            std::thread::sleep(Duration::from_millis(ms));
+        }
+    }
 }
 
 fn probe(consumer_item: &Payload, text: String) {
@@ -196,11 +230,17 @@ where
             (c.block_id, c.host_id, c.replica_id, seq, v)
         })
         .batch_mode(cfg.mode);
+    let stall = cfg.stall;
     if cfg.group {
-        s.group_by(|p: &Payload| p.4.rem_euclid(3))
-            .for_each(|(_k, p)| probe(&p, fmt_payload(&p))); // the link carries the item only; the key is recomputed downstream
+        s.group_by(|p: &Payload| p.4.rem_euclid(3)).for_each(move |(_k, p)| {
+            maybe_stall(stall);
+            probe(&p, fmt_payload(&p))
+        }); // the link carries the item only; the key is recomputed downstream
     } else {
-        s.shuffle().for_each(|p| probe(&p, fmt_payload(&p)));
+        s.shuffle().for_each(move |p| {
+            maybe_stall(stall);
+            probe(&p, fmt_payload(&p))
+        });
     }
 }
 
@@ -285,7 +325,15 @@ fn exec(c: &Case) -> Vec<String> {
         .filter(|op| op[0] == "i")
         .map(|op| (op[1].parse().unwrap(), op[2].parse().unwrap()))
         .collect();
-    let cfg = Cfg { mode, group: c.header[5] == "group", ts: c.header[6] == "1", items: Arc::new(items) };
+    let stall = c
+        .ops
+        .iter()
+        .find(|op| op[0] == "stall" && op.len() == 2)
+        .and_then(|op| op[1].parse::<u64>().ok())
+        .filter(|_| hosts >= 2)
+        .map(|ms| (hosts - 1, ms));
+    STALLED.store(false, Ordering::SeqCst);
+    let cfg = Cfg { mode, group: c.header[5] == "group", ts: c.header[6] == "1", items: Arc::new(items), stall };
 
     EVENTS.lock().unwrap().clear();
     PROBE.lock().unwrap().clear();
